@@ -1,7 +1,8 @@
 (* C02 and the prefix-hash resume exchange (append.go; Model/Resume.v is its model for C08):
    the exchange of Resume.run, except that the answers (SUCC lines of recvPrefixHash) reach the
    sender as an ARBITRARY list [delivered] - what a damaged connection makes of them.
-   Result: what the sender then transmits in the data phase, and the destination afterwards.
+   Result: what the sender then transmits in the data phase, and the destination afterwards
+   (None = an error on either side: nothing is reported as saved).
    The data phase itself is the per-file exchange of Model/Protocol.v: the sender announces
    SIZE = length of what it transmits and MD5 = H of what it transmits, and the receiver counts
    and hashes what it appends - neither covers the kept prefix.  Executable definitions only. *)
@@ -19,7 +20,11 @@ Record fr_outcome := mkFrOut {
   fo_final : list byte     (* the destination after the data phase *)
 }.
 
-Definition fr_run (src dst : list byte) (delivered : list ack) : option fr_outcome :=
+(* [check] = the receiver-side check of the fix 75b62fe is in force: recvPrefixHash remembers
+   source size - its own offset, recvFiles refuses a SIZE message that announces anything else.  The
+   sender announces source size - ITS offset, so the check passes exactly when the two offsets are
+   equal.  A negative offset makes the sender's file.Seek fail (both variants). *)
+Definition fr_run_gen (check : bool) (src dst : list byte) (delivered : list ack) : option fr_outcome :=
   let size := Nat.min (length src) (length dst) in
   match send_hashes B H size None src size 0 [] with
   | None => None
@@ -28,15 +33,22 @@ Definition fr_run (src dst : list byte) (delivered : list ack) : option fr_outco
     | ROver st =>
       match recv_hash_acks (Z.of_nat size) delivered with
       | SDone ms =>
-        let mr := Z.to_nat (r_mstep st) in
-        let f := f_truncate (f_seek (mkFile dst (r_off st)) mr) mr in
-        let sent := skipn (Z.to_nat ms) src in
-        Some (mkFrOut (r_mstep st) ms sent (f_data (f_write f sent)))
+        if (ms <? 0)%Z then None
+        else if check && negb (Z.of_nat (length src) - ms =? Z.of_nat (length src) - r_mstep st)%Z then None
+        else
+          let mr := Z.to_nat (r_mstep st) in
+          let f := f_truncate (f_seek (mkFile dst (r_off st)) mr) mr in
+          let sent := skipn (Z.to_nat ms) src in
+          Some (mkFrOut (r_mstep st) ms sent (f_data (f_write f sent)))
       | _ => None
       end
     | _ => None
     end
   end.
+
+(* the code as it is (whether the check is there is read from the source) and as it was *)
+Definition fr_run := fr_run_gen Consts.c02_resume_rest_check.
+Definition fr_run_old := fr_run_gen false.
 
 (* the answers the receiver really gave *)
 Definition fr_answers (src dst : list byte) : list ack :=
